@@ -19,6 +19,12 @@ pub struct Knobs {
     pub env_spawns: u32,
     /// "fault_free" | "faulty"
     pub batch: String,
+    #[serde(default = "default_step_cap")]
+    pub step_cap: u64,
+}
+
+fn default_step_cap() -> u64 {
+    3_000_000
 }
 
 #[derive(Serialize, Deserialize, Clone, Debug)]
@@ -50,6 +56,8 @@ pub struct Plan {
 #[derive(Serialize, Deserialize, Clone, Debug)]
 pub enum Body {
     Comm(crate::fam_comm::CommPlan),
+    Status(crate::fam_status::StatusPlan),
+    Spawn(crate::fam_spawn::SpawnPlan),
 }
 
 pub const CAPS: [usize; 4] = [4096, 8192, 65536, 1 << 20];
@@ -69,6 +77,7 @@ pub fn gen_knobs(rng: &mut Rng) -> Knobs {
         env_reaps: 0,
         env_spawns: 0,
         batch: "fault_free".into(),
+        step_cap: default_step_cap(),
     }
 }
 
@@ -120,6 +129,8 @@ pub fn gen_plan(prop: &str, base_seed: u64, index: u64) -> Plan {
     let mut plan = Plan { prop: prop.to_string(), seed, knobs, parent: default_parent(), fs: vec![], programs: vec![], body: Body::Comm(Default::default()) };
     match prop {
         "C01" | "C02" | "C03" | "C04" => crate::fam_comm::generate(prop, &mut rng, &mut plan, index),
+        "C09" | "C10" | "C11" => crate::fam_status::generate(prop, &mut rng, &mut plan, index),
+        "C05" | "C06" | "C07" | "C08" | "C15" | "C17" | "C18" => crate::fam_spawn::generate(prop, &mut rng, &mut plan, index),
         _ => panic!("no generator for property {}", prop),
     }
     plan
